@@ -44,6 +44,10 @@ def plan(tier, seed):
                 out.append({"slice": "digraphs6..7-sparse", "mode": "sparse", "n": n, "edges": ne, "part": [part, k]})
     for nleaves in range(1, (3 if tier == "quick" else 4) + 1):
         out.append({"slice": "precedence-graphs", "mode": "prec", "nleaves": nleaves})
+    # operation history: ONE dict object holds a graph on 3 vertices, is sorted, re-wired IN PLACE into every other graph with
+    # the same number of edges (self-loops included), and sorted again
+    for part in range(16):
+        out.append({"slice": "rewired-in-place(3 vertices)", "mode": "rewire", "part": [part, 16], "session": True})
     return out
 
 
@@ -178,6 +182,55 @@ def run_shard(shard, tier, seed):
             for a, b in edges:
                 succ[a].append(b)
             handle(V, succ, "digraph_sparse")
+    elif shard["mode"] == "rewire":
+        part, k = shard["part"]
+        n = 3
+        by_edges = {}
+        for bits in range(1 << (n * n)):
+            by_edges.setdefault(bin(bits).count("1"), []).append(bits)
+        idx = 0
+        for ne, group in sorted(by_edges.items()):
+            for b1 in group:
+                idx += 1
+                if idx % k != part:
+                    continue
+                V, s1 = graph_from_bits(n, b1)
+                g = {v: set(s1[v]) for v in V}          # the one dict object of this history
+                try:
+                    toposort(g)
+                    toposort_all(g)
+                    for b2 in group:
+                        if b2 == b1:
+                            continue
+                        _, s2 = graph_from_bits(n, b2)
+                        for v in V:
+                            g[v].clear()
+                            g[v].update(s2[v])
+                        n_eval += 1
+                        nt += 1
+                        want = sorted(topo_orders(V, {v: set(s2[v]) for v in V}))
+                        one = toposort(g)
+                        allo = sorted(tuple(o) for o in toposort_all(g))
+                        bad = None
+                        if allo != want:
+                            bad = f"toposort_all gives {len(allo)} orderings, expected {len(want)}"
+                        elif (one is None) != (not want) or (one is not None and tuple(one) not in set(want)):
+                            bad = f"toposort = {one}, {len(want)} orderings exist"
+                        elif {v: set(x) for v, x in g.items()} != {v: set(s2[v]) for v in V}:
+                            bad = "the caller's graph was modified"
+                        if bad:
+                            vtotal += 1
+                            if len(viols) < 4:
+                                viols.append({"property": PROP, "subcheck": "rewired_history",
+                                              "detail": f"one dict object first held {s1}, was re-wired in place to {s2}: {bad}",
+                                              "case": {"vertices": V, "succ": [[v, sorted(s2[v])] for v in V], "first": [[v, sorted(s1[v])] for v in V]}})
+                            break
+                except Exception as exc:
+                    vtotal += 1
+                    if len(viols) < 4:
+                        viols.append({"property": PROP, "subcheck": "rewired_history", "detail": f"raised {type(exc).__name__}: {exc}",
+                                      "case": {"vertices": V, "succ": [[v, sorted(s1[v])] for v in V]}})
+        samples.append({"mode": "rewire", "vertices": 3})
     elif shard["mode"] == "graph5bits":
         V = list(range(5))
         pairs = [(a, b) for a in V for b in V if a != b]
@@ -201,6 +254,20 @@ def run_shard(shard, tier, seed):
 
 def replay(v):
     c = v["case"]
+    if c.get("first"):
+        V = c["vertices"]
+        g = {a: set(b) for a, b in c["first"]}
+        toposort(g)
+        toposort_all(g)
+        s2 = {a: set(b) for a, b in c["succ"]}
+        for x in V:
+            g[x].clear()
+            g[x].update(s2[x])
+        want = sorted(topo_orders(V, {x: set(s2[x]) for x in V}))
+        one = toposort(g)
+        allo = sorted(tuple(o) for o in toposort_all(g))
+        badv = allo != want or (one is None) != (not want) or (one is not None and tuple(one) not in set(want))
+        return {"violated": badv, "detail": f"after re-wiring in place: toposort = {one}, toposort_all gives {len(allo)}, expected {len(want)}" if badv else None}
     succ = {a: list(b) for a, b in c["succ"]}
     bad, _ = check_graph(c["vertices"], succ)
     return {"violated": bool(bad), "detail": bad}
